@@ -57,7 +57,7 @@ impl<const N: usize, T: Send + Sync> ConIterOfArray<N, T> {
         len: usize,
     ) -> impl ExactSizeIterator<Item = T> {
         let array = &mut *self.array.get();
-        let end_idx = (begin_idx + len).min(array.len());
+        let end_idx = begin_idx.saturating_add(len).min(array.len());
         let len = end_idx - begin_idx;
 
         let ptr = array.as_mut_ptr().add(begin_idx);
@@ -91,7 +91,12 @@ impl<const N: usize, T: Send + Sync> AtomicIter<T> for ConIterOfArray<N, T> {
 
     #[inline(always)]
     fn progress_and_get_begin_idx(&self, number_to_fetch: usize) -> Option<usize> {
-        let begin_idx = self.counter().fetch_and_add(number_to_fetch);
+        // only positions which exist are reserved, so that the counter stays bounded and cannot wrap around
+        let remaining = self.initial_len().saturating_sub(self.counter().current());
+        if remaining == 0 {
+            return None;
+        }
+        let begin_idx = self.counter().fetch_and_add(number_to_fetch.min(remaining));
         match begin_idx.cmp(&self.initial_len()) {
             Ordering::Less => Some(begin_idx),
             _ => None,
@@ -111,7 +116,7 @@ impl<const N: usize, T: Send + Sync> AtomicIter<T> for ConIterOfArray<N, T> {
         let begin_idx = self
             .progress_and_get_begin_idx(n)
             .unwrap_or(self.initial_len());
-        let end_idx = (begin_idx + n).min(N).max(begin_idx);
+        let end_idx = begin_idx.saturating_add(n).min(N).max(begin_idx);
 
         match begin_idx.cmp(&end_idx) {
             Ordering::Equal => None,
